@@ -18,7 +18,7 @@ func init() {
 		Assumptions: commonAssumptions,
 		Rules: []Rule{
 			{ID: "C08.R1", Floor: 5, Run: c08r1, Text: "primitive-effect siblings (E-sib): the effect classes reached by the single-entity function equal those reached by its batch counterpart(s), modulo the asymmetry table (single Alloc ≙ bulk AllocN + SetEntity; single Remove ≙ bulk Reset; liveness of the subject entity is single-only; table enumeration is batch-only)"},
-			{ID: "C08.R2", Floor: 4, Run: c08r2, Text: "validation siblings: the classes of explicit panic guards of the single-entity function equal those of its batch counterpart(s) (lock, dead target, no-op with relation, relation in result mask, relation is a relation, relation check, exchange mask), modulo: subject liveness single-only, count < 1 batch-only"},
+			{ID: "C08.R2", Floor: 4, Run: c08r2, Text: "validation siblings: the classes of explicit panic guards of the single-entity function equal those of its batch counterpart(s) (lock, dead target, no-op with relation, relation in result mask, relation is a relation, relation check, exchange mask), modulo: subject liveness single-only, range tests of the count (count < 1, count > MaxUint32) batch-only"},
 			{ID: "C08.R3", Floor: 3, Run: c08r3, Text: "returned count: the integer a batch mover returns is a sum of Len() of the matched tables, each read where no row-moving call can have preceded it in the same iteration"},
 			{ID: "C08.R4", Floor: 4, Run: c03r4, Text: "batch range provenance (= C03.R4)"},
 			{ID: "C08.R5", Floor: 7, Run: c01r2, Text: "alloc ⇄ index for bulk rows (= C01.R2)"},
@@ -28,6 +28,8 @@ func init() {
 			{ID: "C08.R9", Floor: 1, Run: batchRowFromStart, Text: "rows of a batch table are offset by the recorded StartIndex (= C03.R9)"},
 			{ID: "C08.R10", Floor: 4, Run: c01r3, Text: "column copies of the batch movers read the moved entity's own source row (= C01.R3)"},
 			{ID: "C08.R11", Floor: 20, Run: flagArgsNotComputed, Text: "option flags are not computed from values: at every call of an internal function with an (ID, bool) parameter pair the bool argument is a constant, a forwarded bool parameter, a stored flag or a presence test of a variadic argument - never derived from the value (the zero ID / zero entity are valid values)"},
+			{ID: "C08.R12", Floor: 2, Run: sameTargetSkipChecked, Text: "the same-target shortcut comes after the relation check (= C10.R16): the batch variant panics where the single-entity operation does"},
+			{ID: "C08.R13", Floor: 4, Run: queryIntParamsRangeChecked, Text: "batch sizes are not truncated (= C10.R15): an int count reaches a conversion to a 32-bit type only under a known upper bound"},
 		},
 	})
 }
@@ -244,10 +246,13 @@ func guardClasses(p *Prog, fn *ssa.Function, g *guardInfo) map[string]bool {
 				cls = "no-op with relation" // a bool parameter (the has-relation flag) whose true edge panics
 			}
 		}
-		if bo, ok := atom.(*ssa.BinOp); ok && bo.Op == token.LSS {
-			if pr, ok := bo.X.(*ssa.Parameter); ok && isConstInt(bo.Y, 1) {
-				if bt, ok := pr.Type().Underlying().(*types.Basic); ok && bt.Info()&types.IsInteger != 0 {
-					cls = "count < 1"
+		if bo, ok := atom.(*ssa.BinOp); ok && (bo.Op == token.LSS || bo.Op == token.GTR || bo.Op == token.LEQ || bo.Op == token.GEQ) {
+			// a range test of the integer count parameter against a constant (count < 1, count > MaxUint32)
+			if pr, ok := stripConvs(bo.X).(*ssa.Parameter); ok {
+				if _, isC := bo.Y.(*ssa.Const); isC {
+					if bt, ok := pr.Type().Underlying().(*types.Basic); ok && bt.Info()&types.IsInteger != 0 {
+						cls = "count < 1"
+					}
 				}
 			}
 		}
